@@ -369,6 +369,12 @@ DENSE = {
     "Coordinates.refraction_true2apparent": [(0, 0.0, 90.0, 0.25)],
     "Sun.beginning_synodic_rotation": [(0, 1, 2500, 1)],
     "Sun.get_equinox_solstice": [(0, -1000, 3000, 40)],
+    # finders that interpolate in a window around a first approximation: one query a year, both flags
+    "Earth.perihelion_aphelion": [(0, -1999, 3999, 1, {1: True}), (0, -1999, 3999, 1, {1: False})],
+    "Mars.perihelion_aphelion": [(0, -1999, 3999, 1, {1: True}), (0, -1999, 3999, 1, {1: False})],
+    "Jupiter.perihelion_aphelion": [(0, -1999, 3999, 3, {1: True}), (0, -1999, 3999, 3, {1: False})],
+    "Saturn.perihelion_aphelion": [(0, -1999, 3999, 5, {1: True}), (0, -1999, 3999, 5, {1: False})],
+    "Uranus.perihelion_aphelion": [(0, -1999, 3999, 10, {1: True}), (0, -1999, 3999, 10, {1: False})],
     "Earth.rho": [(0, -90.0, 90.0, 0.5)],
     "Earth.rho_sinphi": [(0, -90.0, 90.0, 0.5), (1, -500.0, 9000.0, 250.0)],
     "Earth.rho_cosphi": [(0, -90.0, 90.0, 0.5), (1, -500.0, 9000.0, 250.0)],
